@@ -88,6 +88,16 @@ def _rows_of(flow, f, e, depth=0):
     if isinstance(e, ast.Call) and isinstance(e.func, ast.Name) and e.func.id == "zip" and len(e.args) >= 2 and not e.keywords \
             and not any(isinstance(a, ast.Starred) for a in e.args):
         return _Rows(e.args, False)
+    if isinstance(e, ast.Call) and isinstance(e.func, ast.Attribute) and e.func.attr == "tolist" and not e.args:
+        # np.column_stack((a, b, c)).tolist(): row k = [a[k], b[k], c[k]]
+        inner = e.func.value
+        if isinstance(inner, ast.Name):
+            inner = flow.def_value(inner) or inner
+        if isinstance(inner, ast.Call) and (dotted_name(inner.func) or "").split(".")[-1] == "column_stack" and len(inner.args) == 1 \
+                and isinstance(inner.args[0], (ast.Tuple, ast.List)) and len(inner.args[0].elts) >= 2 \
+                and not any(isinstance(a, ast.Starred) for a in inner.args[0].elts):
+            return _Rows(inner.args[0].elts, False)
+        return None
     if isinstance(e, ast.Call) and isinstance(e.func, ast.Name) and e.func.id == "zip" and len(e.args) == 1 and isinstance(e.args[0], ast.Starred) \
             and isinstance(e.args[0].value, ast.Name):
         # zip(*columns) with columns bound once to a tuple / list display
